@@ -42,7 +42,7 @@ def _pipeline(case):
 
     def V(sig, what):
         viols.setdefault(sig, {'sig': sig, 'what': what, 'detail': {}})
-    c = Constants()
+    c = ops.generic_constants(Constants())
     nq, nr, nz = case['nq'], 7, 3
     grid = case['grid']
     adiab, chi = case['adiabatic'], case['chi']
@@ -156,7 +156,7 @@ def _pipeline(case):
 def _equilibrium(case):
     import os
     import numpy as np
-    from pgv import sim, env
+    from pgv import sim, env, ops
     MPI = sim.setup()
     from pygyro.initialisation.setups import setupCylindricalGrid
     from pygyro.model.layout import getLayoutHandler
@@ -171,7 +171,7 @@ def _equilibrium(case):
 
     def fn(r):
         comm = MPI.COMM_WORLD
-        f, c, t = setupCylindricalGrid(layout='v_parallel', npts=list(npts), comm=comm, eps=0.0)
+        f, c, t = setupCylindricalGrid(layout='v_parallel', npts=list(npts), comm=comm, eps=0.0, **ops.GENERIC)
         eta = f.eta_grid
         lp = {'v_parallel_2d': [0, 2, 1], 'mode_solve': [1, 2, 0]}
         np2 = f.getLayout('v_parallel').nprocs[:2]
@@ -198,7 +198,7 @@ def _equilibrium(case):
             V('equilibrium-potential-not-zero', 'potential of the unperturbed equilibrium is %r (grid %r)' % (b, grid))
     d = env.scratch_dir('c15')
     try:
-        sim.write_constants(os.path.join(d, 'c.json'), npts=npts, dt=2, iotaVal=0.8, eps=0.0, m=2, n=1)
+        sim.write_constants(os.path.join(d, 'c.json'), npts=npts, dt=2, iotaVal=0.8, eps=0.0, m=2, n=1, **ops.GENERIC)
         sim.run_driver(grid, d, 2, 1, 'E')
         cps = sim.read_checkpoints(os.path.join(d, 'E'))
         f0, f1 = cps['grid_000000.h5'][0], cps['grid_000002.h5'][0]
